@@ -224,6 +224,22 @@ def gen_join(rng, big=False):
             s.main += ["C%d" % j, "F%d" % j]
         else:
             s.ext.append(["C%d" % t] + jops)
+    if rng.random() < 0.5:
+        # the _many variants, with ABT_THREAD_NULL holes in the list: every listed unit is joined / freed
+        us = []
+        for _ in range(rng.randint(2, 4)):
+            kind = rng.choice("UUT")
+            us.append(s.unit(kind, "N", pick_pool(rng, npool), ["W"] if kind == "T" else [rng.choice(["Y", "Y", "W"]) for _ in range(rng.randint(1, 24))]))
+        s.main += ["C%d" % u for u in us]
+        ent = [str(u) for u in us]
+        for _ in range(rng.randint(0, 2)):
+            ent.insert(rng.randrange(len(ent) + 1), "_")
+        if rng.random() < 0.6:
+            s.main.append("N" + ".".join(ent))
+            s.main.append("E" + ".".join(ent) if rng.random() < 0.5 else " ".join("F%d" % u for u in us))
+        else:
+            s.main.append("E" + ".".join(ent))
+        s.main = " ".join(s.main).split()
     return s.text()
 
 
@@ -308,7 +324,8 @@ def gen_lifecycle(rng, big=False):
         s.es(e, sch, mine)
     npool = len(pools)
     for _ in range(rng.randint(1, 5 if big else 3)):
-        what = rng.choice(["cancel_early", "cancel_mid", "cancel_task", "exit", "revive", "revive_task", "cancel_revive", "cancel_revive"])
+        what = rng.choice(["cancel_early", "cancel_mid", "cancel_task", "exit", "revive", "revive_task", "cancel_revive", "cancel_revive",
+                           "cancel_then_fresh"])
         pool = pick_pool(rng, npool)
         if what == "cancel_early":
             t = s.unit("U", "N", pool, ["Y"] * 3)
@@ -324,6 +341,17 @@ def gen_lifecycle(rng, big=False):
             s.main.append("C%d" % t)
             if s.units[t][1] == "N":
                 s.main.append("F%d" % t)
+        elif what == "cancel_then_fresh":
+            # a cancelled unit is freed and a new unit is created right away (it gets the recycled descriptor): the new
+            # one starts with no request and runs exactly once
+            k1 = rng.choice("TTU")
+            t = s.unit(k1, "N", pool, ["W"] if k1 == "T" else ["Y"] * 3)
+            s.main += ["C%d" % t, "K%d" % t, "F%d" % t]
+            for _ in range(rng.randint(1, 3)):
+                t2 = s.unit(rng.choice("TTU"), rng.choice("NNA"), pool, ["W"])
+                s.main.append("C%d" % t2)
+                if s.units[t2][1] == "N":
+                    s.main.append("F%d" % t2)
         elif what == "cancel_revive":
             # a unit that was cancelled (before it ran, while it ran, or after it had finished) is revived: the new
             # incarnation starts with no request and runs exactly once
@@ -360,7 +388,7 @@ def gen_migrate(rng, big=False, self_suspend=False):
     for _ in range(rng.randint(1, 4 if big else 2)):
         src = rng.choice(sched_pools)
         dst = rng.choice([p for p in sched_pools if p != src])
-        how = rng.choice(["ext", "self", "twice", "auto", "reject_same", "again"]) if not self_suspend else "self_suspend"
+        how = rng.choice(["ext", "self", "twice", "auto", "reject_same", "again", "attr_cb"]) if not self_suspend else "self_suspend"
         if how == "ext":
             t = s.unit("U", "N", src, ["Y"] * rng.randint(4, 10))
             s.main += ["C%d" % t, "M%d:%d" % (t, dst), "F%d" % t]
@@ -382,6 +410,12 @@ def gen_migrate(rng, big=False, self_suspend=False):
             s.main += ["C%d" % t, "M%d:%d" % (t, dst), "J%d" % t, "V%d" % t, "M%d:%d" % (t, dst), "F%d" % t]
             # (no final-pool check: the revived unit may finish before the second request is issued; what is checked is
             # that an acknowledged request was stored - driver monitor "returned-0-without-storing-the-request")
+        elif how == "attr_cb":
+            # created non-migratable with the callback in the attribute, made migratable later, migrated by its own
+            # request: the callback runs (final-pool / callback-count record 'p')
+            t = s.unit("U", "N", src, [])
+            s.units[t][3] = ["n%d" % t, "M%d:%d" % (t, dst), "Y", "W", "Y"]
+            s.main += ["a%d" % t, "J%d" % t, "p%d" % t, "F%d" % t]
         elif how == "twice":
             t = s.unit("U", "N", src, [])
             s.units[t][3] = ["M%d:%d" % (t, dst), "Y", "M%d:%d" % (t, src), "Y", "W"]
